@@ -692,7 +692,26 @@ class Interp:
                     return C(x * y)
             except Exception:
                 pass
+        if op in ("+", "*", "&", "|", "^") and self._commutes(op, a, b):
+            # canonical operand order for commutative operators: constants last, otherwise by rendering
+            ka, kb = (is_const(a), repr(a)), (is_const(b), repr(b))
+            if kb < ka:
+                a, b = b, a
         return ("bin", op, a, b)
+
+    @staticmethod
+    def _commutes(op: str, a: Term, b: Term) -> bool:
+        # string / list concatenation and sequence repetition do not commute
+        def seqlike(t):
+            return (is_const(t) and isinstance(t[1], (str, bytes))) or t[0] in ("list", "tuple", "fstr", "comp", "appended") or \
+                (t[0] == "call" and t[1] in ("builtins.str", ".join", "numpy.array2string", "re.sub", ".format"))
+        if op in ("+", "*") and (seqlike(a) or seqlike(b)):
+            return False
+        if op == "+":
+            # text built up by concatenation of names whose values are strings: keep order whenever a string literal occurs inside
+            if any(is_const(x) and isinstance(x[1], str) for x in walk(a)) or any(is_const(x) and isinstance(x[1], str) for x in walk(b)):
+                return False
+        return True
 
     def e_UnaryOp(self, n: ast.UnaryOp) -> Term:
         op = UNOPS[type(n.op)]
@@ -915,6 +934,35 @@ class Interp:
 
 
 # ---------------------------------------------------------------------- helpers
+def mkbin(op: str, a: Term, b: Term) -> Term:
+    """('bin', op, a, b) in the interpreter's canonical operand order (for building expected terms)."""
+    if op in ("+", "*", "&", "|", "^") and Interp._commutes(op, a, b):
+        ka, kb = (is_const(a), repr(a)), (is_const(b), repr(b))
+        if kb < ka:
+            a, b = b, a
+    return ("bin", op, a, b)
+
+
+def canon(t: Any) -> Any:
+    """Re-normalise every commutative node of a hand-built term."""
+    def fn(x):
+        if x[0] == "bin":
+            y = mkbin(x[1], x[2], x[3])
+            return y if y != x else None
+        return None
+    return subst(t, fn)
+
+
+def split_acc(t: Term):
+    """accumulator update  mu + X  (either operand order) -> (mu, X) or None"""
+    if t[0] == "bin" and t[1] == "+":
+        if t[2][0] == "mu":
+            return t[2], t[3]
+        if t[3][0] == "mu":
+            return t[3], t[2]
+    return None
+
+
 def walk(t: Any):
     """Yield every sub-term (pre-order)."""
     if isinstance(t, tuple):
